@@ -13,3 +13,15 @@ check("C15", "exploration",
       "Held on every executed (scenario, role, cut point, error event, continuation): after the event no APP_DATA, encode fails, no further output, receive calls report error/close.",
       "Events the endpoint does not treat as errors are counted, not judged; local close_notify is not treated as death.",
       "runtime assertion monitor (stays-dead oracle) over fork-cloned event x continuation cases, ASan+UBSan build", "3/C15")
+check("C12", "exploration",
+      "Differential against libcrypto EVP over ~195k (quick) / 32M (thorough) structured cases: all update-call compositions of short messages, every length around block/padding boundaries, alignments 0..15, in-place, all key sizes, AAD 0..64, context reuse; AEAD negatives for every single-bit change of ciphertext/tag/nonce/AAD and truncated tags. ASan+UBSan build (quick) plus the repository's default -O3 build (thorough).",
+      "Trusts OpenSSL 3.0 libcrypto as reference; AES-NI path is not part of this configuration; API preconditions (HMAC Init key <= block, CBC block multiples, 12-byte GCM IV) are respected.",
+      "reference-model (differential) monitor vs libcrypto on sanitizer and production builds", "3/C12")
+check("C13", "exploration",
+      "Differential against GMP for 35 pstm functions over ~280k (quick) / 84M (thorough) operand tuples: all digit-count pairs 1..64, structured values (0,1,2^k,2^k+-1,all-ones, top/bottom-digit differences, sparse/dense random), both signs, output aliasing and stale output objects, with internal invariants (clamped, used<=alloc, zero positive) asserted after every call. ASan+UBSan build (quick) plus the default -O3/inline-asm build (thorough).",
+      "Trusts GMP; respects per-function preconditions read from the library's own callers (odd modulus for Montgomery exptmod, |a|>=|b| for pstm_sub_s).",
+      "reference-model (differential) monitor vs GMP with invariant assertions, sanitizer and production builds", "3/C13")
+check("C18", "exploration",
+      "Metamorphic equality of normalised traces (events, delivered plaintext, emitted bytes) between a flight-at-a-time reference and ~900 (quick) re-runs per seed of each endpoint alone under different partitions of the same input stream and partial-send patterns; all runs fork from one parent snapshot with pinned entropy and virtual clock, causality preserved.",
+      "Application actions are pinned to fixed positions of the input stream; input presented after the session failed is C15's subject; DTLS out of scope.",
+      "metamorphic trace-equality monitor over fork-cloned deterministic re-runs, ASan+UBSan build", "3/C18")
